@@ -27,6 +27,8 @@ with the roles bound by argument position.
 GRAPH-WHOLE - the graphs that supply the dependencies to the decision are
 the job's own, in the scheduler and inside the backend (never re-bound to a
 pruned / transitively reduced copy).
+BACKEND-STATELESS - an attribute of the backend filled while scheduling is
+reset by execute_tasks (nothing of one run decides in the next).
 ENQ-INPUTS - no argument bound to the decision before the atomic region is
 computed from the environment (no status / clock read hoisted out of it).
 Not decided: other backends, fairness, the behaviour of Task.do itself.
@@ -47,6 +49,7 @@ def check(ctx):
     ctx.run(sched_rel.check_graph_whole)
     ctx.run(sched_rel.check_graph_rebound)
     ctx.run(sched_rel.check_decision_inputs)
+    ctx.run(sched_worker.check_backend_stateless)
 
 
 from ..variants import sched as _v   # noqa: E402
